@@ -8,7 +8,7 @@ import journal as J
 
 LEVEL = "proof"
 COQ_TARGETS = ("props/C11.vo",)
-THEOREMS = ["C11_seqno_above_all", "C11_later_write_wins", "C11_reads_agree_after_reopen", "C11_counter_above_after_reopen",
+THEOREMS = ["C11_seqno_above_all", "C11_later_write_wins", "C11_after_any_history_operations_refine", "C11_reads_agree_after_reopen", "C11_counter_above_after_reopen",
             "C11_example", "C11_later_write_wins_partial"]
 
 
